@@ -221,6 +221,8 @@ def identifiers(ctx, rng):
     names = ["#p", "a.#p", "a.b.x", "lambda", "in", "in_0", "lambda_x", "x_lambda", "inx", "xin", "a.in", "a.lambda", "in.x", "lambda.x",
              "#in", "#lambda", "a.#in_0", "a.b.#out_1", "Lambda", "IN", "_in", "in_", "lambda1", "lambda_", "_lambda", "a.in.b", "not_in", "b.lambda_2",
              "N", "x1", "_x", "x_", "a1.b2.c3",
+             # names spelled like the words Python's float() accepts: they are ordinary parameter names
+             "inf", "nan", "Inf", "NaN", "infinity", "a.inf", "#nan", "inf_0",
              # reserved words in every position of a port reference
              "in.#out", "lambda.#out", "top.in.#out", "a.lambda.#p", "a.b.#lambda", "a.#in", "in.lambda.#in"]
     import sympy
